@@ -1764,7 +1764,7 @@ fn main() {
     let start = Instant::now();
     let quick = cli.tier.is_quick();
     let shards: usize = if quick { 32 } else { 128 };
-    let per_shard = cli.scaled(if quick { 12 } else { 60 });
+    let per_shard = cli.scaled(if quick { 32 } else { 150 });
     let steps: u32 = if quick { 34 } else { 44 };
     let seed = cli.seed;
     let only: Option<(u64, u64)> = match (cli.extra.get("only-shard"), cli.extra.get("only-history")) {
